@@ -140,8 +140,10 @@ Definition api_get_fragment (d : dr) (f : finode) : out (list N) * dr :=
     let frag_sz := f_size f mod bs in
     match precache_frag d (f_frag_idx f) with
     | (Ok _, d') =>
-      if bs <? (f_frag_off f + frag_sz) mod u32m then (Err c_SQFS_ERROR_OUT_OF_BOUNDS, d')
-      else if bs <? f_frag_off f + frag_sz then (Crash, d')      (* the sum wrapped in 32 bit: memcpy past the block (DESIGN F13) *)
+      (* (sqfs_u64)frag_off + frag_sz > data->frag_blk_size: the sum cannot wrap, and the bound is the
+         number of valid bytes of the loaded fragment block (repo fix F13; before it the 32 bit sum was
+         compared with block_size and could wrap: memcpy past the block) *)
+      if snd (frag_buf d') <? f_frag_off f + frag_sz then (Err c_SQFS_ERROR_OUT_OF_BOUNDS, d')
       else (Ok (slice (fst (frag_buf d')) (f_frag_off f) frag_sz), d')
     | (Err e, d') => (Err e, d') | (Crash, d') => (Crash, d') | (Fuel, d') => (Fuel, d')
     end.
